@@ -18,6 +18,7 @@ package main
 import (
 	"bytes"
 	"fmt"
+	"math"
 	"os"
 	"strings"
 	"time"
@@ -229,6 +230,49 @@ func workloads() []workload {
 			return fmt.Sprintf("FontBBoxPDF=%v written=%q err=%v", m.FontBBoxPDF(), b.Bytes(), err)
 		}})
 	}
+	// boxes that touch zero from both sides: +0 and -0 are different outputs
+	ws = append(ws, workload{"Metrics.Write(boxes with negative and positive zeros)", func() string {
+		m := metricsWith(2, 5)
+		negZero := math.Copysign(0, -1)
+		k := 0
+		for _, nm := range []string{"f", "i", "space", ".notdef", "fi"} {
+			g := m.Glyphs[nm]
+			if g == nil {
+				continue
+			}
+			z := []float64{negZero, 0}[k%2]
+			g.BBox = rect.Rect{LLx: z, LLy: -z, URx: 500 + float64(k), URy: 700}
+			k++
+		}
+		var b bytes.Buffer
+		err := m.Write(&b)
+		return fmt.Sprintf("FontBBoxPDF=%v written=%q err=%v", m.FontBBoxPDF(), b.Bytes(), err)
+	}})
+	ws = append(ws, workload{"Font boxes and Font.Write(outlines touching zero from both sides)", func() string {
+		f := fontWith(4)
+		negZero := math.Copysign(0, -1)
+		for k, nm := range []string{"A", "B", "space", ".notdef"} {
+			z := []float64{negZero, 0}[k%2]
+			g := f.NewGlyph(nm, 500)
+			g.MoveTo(z, -z)
+			g.LineTo(100+float64(k), -z)
+			g.LineTo(100+float64(k), 200)
+			g.ClosePath()
+		}
+		var b bytes.Buffer
+		err := f.Write(&b, &type1.WriterOptions{Format: type1.FormatNoEExec})
+		return fmt.Sprintf("FontBBox=%v FontBBoxPDF=%v written=%q err=%v", f.FontBBox(), f.FontBBoxPDF(), b.Bytes(), err)
+	}})
+	ws = append(ws, workload{"afm write+read(boxes written as -0 and 0)", func() string {
+		text := "StartFontMetrics 4.1\nFontName Z\nFullName Z R\nStartCharMetrics 3\nC 65 ; WX 500 ; N A ; B -0 -0 400 700 ;\nC 66 ; WX 500 ; N B ; B 0 0 500 600 ;\nC 67 ; WX 500 ; N C ; B -0 0 450 650 ;\nEndCharMetrics\nEndFontMetrics\n"
+		m, err := afm.Read(strings.NewReader(text))
+		if err != nil {
+			return err.Error()
+		}
+		var b bytes.Buffer
+		err = m.Write(&b)
+		return fmt.Sprintf("%q err=%v", b.Bytes(), err)
+	}})
 	for _, shift := range [][2]float64{{40, 10}, {-700, -800}} {
 		shift := shift
 		ws = append(ws, workload{fmt.Sprintf("Font boxes(blank glyphs, outlines shifted by %v)", shift), func() string {
@@ -247,6 +291,28 @@ func workloads() []workload {
 			err := f.Write(&b, nil)
 			return fmt.Sprintf("FontBBox=%v FontBBoxPDF=%v written=%q err=%v", f.FontBBox(), f.FontBBoxPDF(), b.Bytes(), err)
 		}})
+	}
+	// glyph names that are not regular PostScript names, next to the regular names
+	// they are commonly rewritten to: whatever the writer does with them (an error,
+	// today), it does the same every time
+	for _, pair := range [][2]string{{"one half", "one_half"}, {"a(b", "a_b"}, {"x/y", "x_y"}, {"tab\there", "tab_here"}, {"per%cent", "per_cent"}} {
+		pair := pair
+		for _, format := range corpus.Formats {
+			format := format
+			ws = append(ws, workload{fmt.Sprintf("Font.Write(glyphs %q and %q, %s)", pair[0], pair[1], corpus.FormatName(format)), func() string {
+				f := fontWith(2)
+				for k, nm := range pair {
+					g := f.NewGlyph(nm, float64(300+100*k))
+					g.MoveTo(float64(10*k), 0)
+					g.LineTo(float64(100+50*k), 0)
+					g.LineTo(50, float64(200+100*k))
+					g.ClosePath()
+				}
+				var b bytes.Buffer
+				err := f.Write(&b, &type1.WriterOptions{Format: format})
+				return fmt.Sprintf("%q err=%v", b.Bytes(), err)
+			}})
+		}
 	}
 	ws = append(ws, workload{"ReadCMap(3 CMaps, one with the empty name)", func() string {
 		var sb strings.Builder
@@ -388,6 +454,13 @@ func histTargets() []histOp {
 		in := in
 		ops = append(ops, histOp{"type1.Read(" + in.Name + ")", func() string { return observe.Run("font", bytes.NewReader(in.Data)).Obs }})
 	}
+	// fonts that say `/Encoding StandardEncoding def`
+	for _, in := range corpus.FontsT1gen() {
+		in := in
+		if strings.Contains(in.Name, "composite") || strings.Contains(in.Name, "multi") {
+			ops = append(ops, histOp{"type1.Read(" + in.Name + ")", func() string { return observe.Run("font", bytes.NewReader(in.Data)).Obs }})
+		}
+	}
 	return ops
 }
 
@@ -424,6 +497,17 @@ func histHistory() []histOp {
 			f := other()
 			f.Glyphs["bad name ("] = &type1.Glyph{WidthX: 100}
 			f.Write(&bytes.Buffer{}, &type1.WriterOptions{Format: type1.FormatPFB})
+			return ""
+		}},
+		histOp{"type1.Read of a font that stores into StandardEncoding and systemdict", func() string {
+			font := string(corpus.Fonts()[3].Data)
+			evil := strings.Replace(font, "/PaintType 0 def", "/PaintType 0 def\nStandardEncoding 65 /evil put\nStandardEncoding 194 /evil2 put\n0 1 31 {StandardEncoding exch /ctl put} for\nsystemdict /StandardEncoding get 66 /evil3 put", 1)
+			type1.Read(strings.NewReader(evil))
+			return ""
+		}},
+		histOp{"a program that rewrites the CIDInit procedure set, errordict and FontDirectory", func() string {
+			intp := postscript.NewInterpreter()
+			intp.ExecuteString("/CIDInit /ProcSet findresource /begincmap {} put errordict /undefined {pop pop} put FontDirectory /X 1 dict put systemdict /def {pop pop} put")
 			return ""
 		}},
 		histOp{"type1.Read of a truncated font", func() string {
